@@ -1,12 +1,16 @@
 #!/bin/sh
-# Builds the framework offline from files on disk only (engines, generated program crates).
+# Builds the framework offline from files on disk only (engines, scheduler shims, generated program crates),
+# and runs the engine self-tests.
 set -e
 cd "$(dirname "$0")"
 export CARGO_NET_OFFLINE=true
 mkdir -p build/out evidence replays
 (cd engines && CARGO_TARGET_DIR="$PWD/../build/target" cargo build --release --offline 2>&1 | tail -2)
 ./build/target/release/pgen --selftest
-# pre-build the quick-tier program families so that the quick commands only run
+engines/sched/mkshims.sh
+(cd engines/sched && CARGO_TARGET_DIR="$PWD/../../build/target-sched" cargo build --release --offline 2>&1 | tail -2)
+./build/target-sched/release/selftest | tail -1
+# pre-build the quick-tier program families so that the quick commands only have to run them
 python3 - <<'PY'
 import sys
 sys.path.insert(0, '.')
